@@ -3,6 +3,7 @@ from .. import facts, q, abi
 from ..engine import Engine, Inconclusive, C, fmt, subterms
 from ..common import site
 from .ops import strip_casts
+from . import ops
 from .c09 import root_of
 from . import c10
 from ..report import RuleView
@@ -29,6 +30,8 @@ def run(rep, tier):
     rep.rule("R-C07-typed-access", "inside the analysed headers every typed load or store whose address derives from a wrapper's raw pointer / a backend translation uses an access type whose size under the sandbox ABI "
              "equals its host size in that instantiation, i.e. goes through guest-typed storage (tainted_volatile::data / guest struct fields) and never through the application's `long`/pointer types; byte-wise libc operations are C10's")
     rep.rule("R-C07-loadstore", "tainted_volatile::get_raw_value reads its own storage and converts TO_APPLICATION; every operator= branch writes sandbox memory only through its own storage")
+    rep.rule("R-C07-decode", "copy_and_verify on a pointer reads its single pointee through the guest-typed wrapper (width, signedness and encoding of the sandbox ABI, then the checked conversion); it never copies the "
+             "guest bytes into the application object when the two representations differ")
     rep.rule("R-C07-range", "a bulk load (copy_and_verify_range, copy_and_verify on a pointer, copy_and_verify_buffer_address, unverified_safe_pointer_because) range-checks exactly the bytes it decodes - "
              "(count-1)*guest stride + guest width - so that objects ending at the last byte of sandbox memory load, and nothing beyond the checked bytes is decoded (shared analysis with C10's R-C10-elem)")
     backends = ["model32"] if tier == "quick" else ["model32", "model32gi"]
@@ -57,6 +60,29 @@ def run(rep, tier):
                 except Inconclusive as ex:
                     rep.inconclusive("R-C07-range", site(f), str(ex), inst)
         a = abi.abi_of(db.label)
+        # ---- decoding of a single pointee (copy_and_verify on a pointer): through the guest-typed wrapper, never a byte copy
+        for f in db.insts("rlbox::tainted_base_impl::copy_and_verify"):
+            T = ops.class_T(f) or {}
+            if T.get("k") != "ptr" or not T.get("pte"):
+                continue
+            inst = "%s | %s" % (db.label, f["full"][:160])
+            try:
+                host = abi.size_align(db, T["pte"], "host")[0]
+                guest = abi.size_align(db, T["pte"], a)[0]
+            except abi.Unknown:
+                continue
+            try:
+                ps_ = q.paths(db, f)
+            except Inconclusive as ex:
+                rep.inconclusive("R-C07-decode", site(f), str(ex), inst)
+                continue
+            bulk = [e for p_ in ps_ for e in p_.events if e.kind == "CALL" and q.short(e.a) in ("memcpy", "memmove", "__builtin_memcpy") and len(e.b) >= 2 and
+                    q.mentions(e.b[1], lambda x: x == ("fld", THIS_OBJ, "data") or (isinstance(x, tuple) and x[:1] == ("vrd",)))]
+            if bulk and host != guest:
+                rep.violation("R-C07-decode", site(f), "the pointee ('%s': %d bytes in the sandbox ABI, %d in the application's) is copied byte-wise out of sandbox memory into an application object instead of being "
+                              "loaded through the guest-typed wrapper and converted: the value is not decoded (e.g. a negative 32-bit guest long is zero-extended)" % (T["pte"], guest, host), bulk[0].loc, inst)
+            else:
+                rep.ok("R-C07-decode", site(f), "pointee loaded through the guest-typed wrapper" if not bulk else "byte copy between identical representations", inst, nontrivial=host != guest)
         # ---- footprint
         for r in db.records:
             if r["dep"] or r["n"] != "rlbox::tainted_volatile" or "size" not in r:
